@@ -52,6 +52,7 @@ METHODS = [
     ("quantise_and_normalise", "quantiseAndNormalise"), ("scale", "scale"), ("transpose", "transpose"),
     ("get_sequence_duration", "getSequenceDuration"), ("is_empty", "isEmpty"), ("equals", "equals"),
     ("get_sequence_channel", "getSequenceChannel"), ("is_channel_consistent", "isChannelConsistent"),
+    ("__eq__", "eqDunder"),
 ]
 LEAN_OF = dict(METHODS)
 
@@ -72,6 +73,7 @@ VIEW_LINKS = {
     ("rel", "scale"): "Unit", ("rel", "transpose"): "Bool", ("abs", "quantise"): "Unit",
     ("abs", "quantise_note_lengths"): "Unit", ("abs", "get_sequence_duration"): "Int", ("rel", "is_empty"): "Bool",
     ("abs", "equals"): "Bool", ("abs", "get_sequence_channel"): "Int", ("abs", "is_channel_consistent"): "Bool",
+    ("abs", "__eq__"): "Bool",
 }
 # pure conversions: view -> other view
 CONVERSIONS = {("rel", "to_absolute_sequence"): "View.rel_to_absolute_sequence",
